@@ -381,6 +381,12 @@ def seq_family(tier="quick"):
     out.append(multi("seq-invoke-two-machines", {"m": {"definition": chain(("I", Invoke("f1")), Z)}, "n": {"definition": chain(("I", Invoke("f2")), Z)}},
                      [{"machine": "m", "name": "e1", "input": {"k": 1}}, {"machine": "n", "name": "e2", "input": {"k": 2}}],
                      workers={"f1": {"*": OK("from-f1")}, "f2": {"*": OK("from-f2")}}))
+    # the function of a long-form invocation taken from the input: two executions of one machine name different functions
+    dfi = chain(("I", {"Type": "Task", "Resource": "arn:aws:states:local::rpcmessage:invoke", "Parameters": {"FunctionName.$": "$.fn", "Payload": {"x": 1}},
+                       "ResultSelector": {"p.$": "$.Payload"}}), Z)
+    out.append(multi("seq-invoke-function-from-input", {"m": {"definition": dfi}},
+                     [{"machine": "m", "name": "e1", "input": {"fn": fn_arn("f1")}}, {"machine": "m", "name": "e2", "input": {"fn": fn_arn("f2")}}],
+                     workers={"f1": {"*": OK("from-f1")}, "f2": {"*": OK("from-f2")}}))
     dp = chain(("A", Pass(Result=1, ResultPath="$.a")), Z)
     out.append(multi("seq-three-pass", {"m": {"definition": dp}},
                      [{"machine": "m", "name": "e%d" % i, "input": {"i": i}} for i in (1, 2, 3)]))
@@ -789,6 +795,7 @@ def update_family(tier="quick"):
         out.append(sc)
     add("pass-chain", chain(("A", Pass(Result=1, ResultPath="$.a")), Z), chain(("A", Pass(Result=2, ResultPath="$.a")), ("B", Pass(Result="new", ResultPath="$.b")), Z), {"k": 1})
     add("task-resource", chain(("T", Task("f1", ResultPath="$.r")), Z), chain(("T", Task("f2", ResultPath="$.r")), Z), {"k": 1})
+    add("invoke-function", chain(("T", Invoke("f1", ResultPath="$.r")), Z), chain(("T", Invoke("f2", ResultPath="$.r")), Z), {"k": 1})
     add("choice-rule", chain(("C", Choice([{"Variable": "$.k", "NumericEquals": 1, "Next": "Y"}], default="Z")), ("Y", Pass(Result="y", End=True)), Z),
         chain(("C", Choice([{"Variable": "$.k", "NumericEquals": 2, "Next": "Y"}], default="Z")), ("Y", Pass(Result="y", End=True)), Z), {"k": 1})
     it = chain(("I", Task("fi")))
